@@ -1,9 +1,11 @@
 (* SelectConformFlatten.v -- C01, positive half, for the charts LargeMicroStep::init builds
    (c = flatten late t0): the premise `exit_set_agrees` of SelectConformLemmas.selection_conforms_lemma is
-   discharged by ExitSetLemmas.exit_set_agrees_t; a corner outside the hypotheses is exhibited; the
-   hypotheses are satisfiable.  Proofs only. *)
+   discharged by ExitSetLemmas.exit_set_agrees_t, the numbering hypothesis by
+   SelectConformOrder.trans_order_flatten; a corner outside the hypotheses is exhibited; the hypotheses
+   are satisfiable.  Proofs only. *)
 From V Require Import Base NameMatch NameMatchLemmas Chart Exec Large LargeLemmas Spec Legal SetLemmas
-  LegalAbstract LegalLarge LegalRun WfCore Interp LegalOracle LargeCacheLemmas ExitSetLemmas SelectConform SelectConformLemmas.
+  LegalAbstract LegalLarge LegalRun WfCore Interp LegalOracle LargeCacheLemmas ExitSetLemmas SelectConform SelectConformLemmas
+  SelectConformOrder SelectConformRoot.
 Local Open Scope nat_scope.
 
 (* a chart of the history-free core has no history targets *)
@@ -15,16 +17,34 @@ Qed.
 
 Lemma selection_conforms_flatten_lemma late t0 cfg ev x h :
   let c := flatten late t0 in
-  wf_coreb c = true -> fs_type (st c 0) = FCompound -> trans_orderb c = true -> par_nonemptyb c = true ->
+  wf_coreb c = true -> fs_type (st c 0) = FCompound -> par_nonemptyb c = true ->
   legal_configb c cfg = true -> ascb cfg = true ->
   unrelated_enabledb c cfg ev x = true -> conds_pureb c cfg x = true -> descs_okb c cfg ev = true ->
   select_loop lg_fixed c cfg ev (cfg_postfix c cfg) None [] x = select_transitions c cfg h ev x.
 Proof.
-  intros c Hwf Hroot Hord Hpar Hleg Hasc H1 H2 H3.
-  apply (selection_conforms_lemma c cfg ev x h Hwf Hroot Hord Hpar Hleg Hasc H1 H2 H3).
+  intros c Hwf Hroot Hpar Hleg Hasc H1 H2 H3.
+  apply (selection_conforms_lemma c cfg ev x h Hwf Hroot (trans_order_flatten late t0) Hpar Hleg Hasc H1 H2 H3).
   intros s ti _ _. apply exit_set_agrees_t.
   - apply wf_targets_plain. now apply wf_coreb_sound.
   - pose proof (LegalOracle.legal_configb_sound c (wf_coreb_sound c Hwf) cfg Hleg) as [_ Hb]. exact Hb.
+Qed.
+
+(* Appendix D's own configuration does not contain the <scxml> element (index 0), the engine's does:
+   the engine on 0 :: cfg' selects what Appendix D selects on cfg' *)
+Lemma selection_conforms_spec_cfg_lemma late t0 cfg' ev x h :
+  let c := flatten late t0 in
+  let cfg := 0 :: cfg' in
+  wf_coreb c = true -> fs_type (st c 0) = FCompound -> par_nonemptyb c = true -> root_unmentionedb c = true ->
+  legal_configb c cfg = true -> ascb cfg = true ->
+  unrelated_enabledb c cfg ev x = true -> conds_pureb c cfg x = true -> descs_okb c cfg ev = true ->
+  select_loop lg_fixed c cfg ev (cfg_postfix c cfg) None [] x = select_transitions c cfg' h ev x.
+Proof.
+  intros c cfg Hwf Hroot Hpar Hun Hleg Hasc H1 H2 H3.
+  rewrite <- (select_transitions_root c cfg').
+  - now apply selection_conforms_flatten_lemma.
+  - exact (wf_root_par c (wf_coreb_sound c Hwf)).
+  - unfold is_atomic_state, sty. now rewrite Hroot.
+  - exact Hun.
 Qed.
 
 (* ---- outside the hypotheses: a <parallel> without children.  Appendix D finds transitions only on the
@@ -44,7 +64,7 @@ Local Open Scope nat_scope.
 Lemma selection_childless_parallel_refuted :
   exists late t0 cfg ev x h,
     let c := flatten late t0 in
-    wf_coreb c = true /\ fs_type (st c 0) = FCompound /\ trans_orderb c = true /\ par_nonemptyb c = false /\
+    wf_coreb c = true /\ fs_type (st c 0) = FCompound /\ par_nonemptyb c = false /\
     legal_configb c cfg = true /\ ascb cfg = true /\
     unrelated_enabledb c cfg ev x = true /\ conds_pureb c cfg x = true /\ descs_okb c cfg ev = true /\
     select_loop lg_fixed c cfg ev (cfg_postfix c cfg) None [] x <> select_transitions c cfg h ev x.
@@ -60,10 +80,12 @@ Example selection_conforms_nonvacuous :
   let c := flatten false ex_tree in
   let cfg := [0; 2; 3; 5; 6; 8; 10] in
   let ev := sc_ev 101%N in
-  wf_coreb c = true /\ fs_type (st c 0) = FCompound /\ trans_orderb c = true /\ par_nonemptyb c = true /\
+  wf_coreb c = true /\ fs_type (st c 0) = FCompound /\ par_nonemptyb c = true /\
   legal_configb c cfg = true /\ ascb cfg = true /\
   unrelated_enabledb c cfg ev x_init = true /\ conds_pureb c cfg x_init = true /\ descs_okb c cfg ev = true /\
+  root_unmentionedb c = true /\
   select_transitions c cfg [] ev x_init = ([2; 3], x_init) /\
+  select_transitions c (tl cfg) [] ev x_init = ([2; 3], x_init) /\
   map (fun ti => ft_vid (tr c ti)) [2; 3] = [103%N; 104%N].
 Proof. vm_compute. repeat split; reflexivity. Qed.
 
@@ -89,9 +111,10 @@ Example selection_conforms_nonvacuous_conflict :
   let c := flatten false conflict_tree in
   let cfg := [0; 1; 2; 3; 4; 5] in
   let ev := sc_ev 101%N in
-  wf_coreb c = true /\ fs_type (st c 0) = FCompound /\ trans_orderb c = true /\ par_nonemptyb c = true /\
+  wf_coreb c = true /\ fs_type (st c 0) = FCompound /\ par_nonemptyb c = true /\
   legal_configb c cfg = true /\ ascb cfg = true /\
   unrelated_enabledb c cfg ev x_init = true /\ conds_pureb c cfg x_init = true /\ descs_okb c cfg ev = true /\
+  root_unmentionedb c = true /\
   filter_map (en_of c cfg ev x_init) (cfg_postfix c cfg) = [0; 1] /\
   select_transitions c cfg [] ev x_init = ([0], x_init).
 Proof. vm_compute. repeat split; reflexivity. Qed.
